@@ -7,6 +7,17 @@ TRUST = ("TLC 1.8 evaluates the TLA+ judge; harness/lib.py projections (real obj
          "of abstract cases are trusted; bounds as stated in the evidence file")
 
 CHECKS = {
+ "C14": dict(
+    text="VolTree.tla states, in exact rationals, the union volume of a collinear tree as the integral of the maximal cross-section: per compartment the three "
+         "profiles (frustum, ball A, ball B) cross at rational points, and on every piece the profile largest at the midpoint is integrated (TSeg); under the "
+         "premise every ball stays within its adjacent compartments, so the union is the sum over compartments plus half a ball at each free end. TLC proves "
+         "that what the per-node sweep contributes per compartment at accuracy >= 3 (CSeg: half balls + frustum - both ball-frustum overlaps) equals TSeg for "
+         "every compartment of the grid, tangent, overlapping and disjoint neighbours alike. Every collinear tree within the bounds is evaluated by the real "
+         "get_volume at levels 1-4 (5 and 8 where the Monte-Carlo pair term is exactly zero) and through the feature extractor, at 7 placements and 3 units, "
+         "and random trees of any shape at levels 1 and 2; TLC judges the ratio to the exact parts",
+    design="4/C14", technique="TLA+ exact-rational specification of the union integral vs the inclusion-exclusion sweep (per-compartment identity checked by TLC); TLC-generated trees replayed into the code, TLC-judged",
+    note="TLC 1.8 evaluates the TLA+ judge; 32-bit integers limit the exactly decided compartments to radii 1..3 and spacing <= 4 units (other sizes via the length unit); "
+         "the executor sums the exact per-part rationals in floating point and forms the ratio observed/expected; levels with a non-zero Monte-Carlo term are not claimed"),
  "C13": dict(
     text="VolPrim.tla states every primitive volume twice in exact rational arithmetic (units of pi): as the defining integral of the solid of revolution "
          "(Truth) and as the formula / five-way case analysis the code uses (Code: cap, frustum, lens with disjoint / nested cases, sphere-frustum "
